@@ -44,7 +44,8 @@ WellFormedCrit(c) ==
   /\ c.fam \in GrepFams
   /\ c.fam \in {"s", "D", "I", "a"} => c.re \in KnownRE
   /\ c.fam = "p" => c.re \in KnownPred
-  /\ c.fam \in {"l", "L", "c", "C"} => c.n >= 1
+  /\ c.fam \in {"L", "C"} => c.n >= 1
+  /\ c.fam \in {"l", "c"} => c.n >= 2     \* -l 1 and -c 1 are the default values: "not requested" for the code
 
 (* a set of criteria one command line can express *)
 Compatible(S) ==
